@@ -53,10 +53,13 @@ def main():
             dest = os.path.join(wt, pkgname, "tests", mm.group(1) + ".rs")
             import shutil as _s
             _s.copy(files[0], dest)
-            sh(f"git add -N {dest}", wt)
-            rc, diff = sh("git diff", wt)
+            rel = os.path.relpath(dest, wt)
+            sh(f"git add -N -- {rel}", wt)
+            rc, diff = sh(f"git diff -- {rel}", wt)
             open(os.path.join(d, "demo.diff"), "w").write(diff)
-            sh(f"git reset -q {dest}", wt)
+            sh(f"git reset -q -- {rel}", wt)
+            if os.path.exists(dest):
+                os.remove(dest)
             reset()
     # 1. demonstration alone
     rc, _ = sh(f"git apply {d}/demo.diff", wt)
